@@ -24,15 +24,39 @@ func ruleTLSSuccessEffects(c *Ctx) {
 	if f == nil {
 		return
 	}
+	// the upgrade point: the store itself, or the call of a helper of this handler that certainly performs it
 	up := s.Find(f, "st:Conn.conn")
+	allInstrs(f, func(in ssa.Instruction) {
+		if cc := callCommon(in); cc != nil {
+			if g := staticCallee(cc); g != nil && inSmtp(g) && !isExported(g) && g != f && s.Must(g)["st:Conn.conn"] {
+				up = append(up, in)
+			}
+		}
+	})
 	R.Ob("(*Conn).handleStartTLS/installs the TLS connection", c.P.Pos(f.Pos()), len(up) == 1, fmt.Sprintf("%d stores to Conn.conn", len(up)))
+	upSet := map[ssa.Instruction]bool{}
 	for _, st := range up {
-		_, _, v := storedField(st)
-		d := describe(v)
+		upSet[st] = true
+		d := ""
+		if _, _, v := storedField(st); v != nil {
+			d = describe(v)
+		} else if cc := callCommon(st); cc != nil {
+			// helper call: the new connection is one of the arguments, and the helper stores that parameter
+			for i, a := range cc.Args {
+				if describe(a) == "tls.Server(Conn.conn,Server.TLSConfig)" {
+					g := staticCallee(cc)
+					for _, hs := range s.Find(g, "st:Conn.conn") {
+						if _, _, hv := storedField(hs); hv != nil && describe(hv) == fmt.Sprintf("param%d", i) {
+							d = describe(a)
+						}
+					}
+				}
+			}
+		}
 		R.Ob(c.siteKey(st, "conn = tls.Server(old conn, TLSConfig)"), c.P.InstrPos(st), d == "tls.Server(Conn.conn,Server.TLSConfig)", "Conn.conn becomes "+d)
 		c.obUnreach("TLS conn installed", st, `(*tls.Conn).Handshake(tls.Server(Conn.conn,Server.TLSConfig)) != nil`)
 	}
-	isUp := c.direct("st:Conn.conn")
+	isUp := func(in ssa.Instruction) bool { return upSet[in] }
 	c.obFollow("upgrade then init()", f, isUp, []string{"call:(*Conn).init"}, nil, nil)
 	c.obFollow("upgrade then reset()", f, isUp, []string{lReset}, nil, nil)
 	// the effects themselves, not just the call: at this point the session is nil, so a reset() that
